@@ -189,6 +189,8 @@ def run_and_validate(out, wd, docs, label, devs, props, max_fail_per_chunk=4):
             if not lines:
                 break
             info, r = validate(wd, f"{label}.{i}.r{rnd}", cur, devs)
+            for dname in re.findall(r'"DEV-USED",\s*"([^"]+)"', open(r.out, errors="replace").read()):
+                stats.setdefault("devs", set()).add(dname)
             stats["states"] += info["states"]
             stats["generated"] += info["generated"]
             runs_here = [json.loads(l)["run"] for l in lines if '"ev":"open"' in l]
@@ -230,6 +232,10 @@ def run_and_validate(out, wd, docs, label, devs, props, max_fail_per_chunk=4):
             out.transitions += st["generated"]
             out.traces += st["runs_ok"]
             out.extra["events_validated"] = out.extra.get("events_validated", 0) + st["events"]
+            for dname in st.get("devs", ()):
+                out.extra.setdefault("deviations_exercised", [])
+                if dname not in out.extra["deviations_exercised"]:
+                    out.extra["deviations_exercised"].append(dname)
             if st["unexamined"]:
                 out.extra["runs_unexamined_after_failures"] = out.extra.get("runs_unexamined_after_failures", 0) + st["unexamined"]
     return failures
@@ -267,6 +273,9 @@ def check_store(prop, replay=None):
         path = replay or vlib.save_replay(prop, "store-history", {"doc": f["doc"], "matched": f["matched"], "guard": f.get("guard"),
                                                                   "violated": f["violated"], "event": f["event"]})
         out.violation(path, f"violated={f['violated']} guard={f.get('guard')} at event {f['matched']}: {summarize_event(f['event'])}")
+    for k in vlib.load_known():
+        if k["status"] == "open" and k.get("deviation") in out.extra.get("deviations_exercised", []):
+            out.known(k["id"], f"{k['deviation']}: {k['what'][:200]}")
     out.samples = [json.dumps(d, separators=(",", ":"))[:600] for d in docs[:2]]
     out.extra["histories"] = len(docs)
     out.extra["rule"] = ("seeded random histories of put/del/batch/flush/compact-step/reopen/verify/scan on the real store "
